@@ -716,6 +716,7 @@ func (r *TARun) Restart() error {
 		r.Tracer.newIncarnation()
 		r.Tracer.emit("restart")
 		r.Tracer.observe("D", nil)
+		r.Tracer.matchById = false // ids are only a stable identity across the restart itself
 	}
 	return nil
 }
